@@ -142,7 +142,11 @@ func xorChunk(r *hlib.Rand, n int) []byte {
 
 func genSub(c *hlib.Ctx) string {
 	r := c.R
-	switch r.Intn(10) {
+	switch r.Intn(11) {
+	case 10: // lengths around the varint size boundaries (1→2 bytes at 128, 2→3 bytes at 16384)
+		c.Count("sub:varint-boundary-length")
+		n := []int{127, 128, 129, 16383, 16384, 16385}[r.Intn(6)]
+		return fmt.Sprintf("%d:%s", r.Range(1, 3), hlib.Hex(r.Bytes(n)))
 	case 0, 1, 2, 3: // real XOR chunk
 		c.Count("sub:xor-real")
 		return "1:" + hlib.Hex(xorChunk(r, r.Range(0, 40)))
